@@ -630,6 +630,7 @@ class Attribute(_StringMixin):
         self._qualified_name = (namespace, name)
         del attributes[current]
         self._attributes = attributes
+        attributes._attributes[(namespace, name)] = self
 
     @property
     def local_name(self) -> str:
@@ -790,7 +791,8 @@ class TagAttributes(MutableMapping):
         if isinstance(value, Attribute):
             value = value.value
         self._etree_attrib[key] = value
-        self._attributes[qualified_name] = Attribute(self, qualified_name)
+        if qualified_name not in self._attributes:
+            self._attributes[qualified_name] = Attribute(self, qualified_name)
 
     def __str__(self):
         return str(self.as_dict_with_strings())
